@@ -19,7 +19,7 @@ def run(ck):
     engine.check_engine(ck, 'C07', actor.proj(keep_out=keep, keys=('starts', 'exited')),
                         'execution errors + Ok messages sent + script starts + actor exit', fail_p=0.75, gated_p=0.7,
                         n_sys_quick=18, extra=watch_failures, n_root_quick=150,
-                        root_projection=root.status_only, root_what='whether and with which status run returns')
+                        root_projection=root.status_only, root_what='whether and with which status run returns', n_evflow_quick=24)
 
 
 def replay(ck, path):
